@@ -9,20 +9,21 @@ def _call(job):
     vlib.use_repo()
     import importlib
     opt = importlib.import_module("cm_colors.core.optimisation")
-    fn, text, bg, tol, target, large = job
+    fn, text, bg, tol, target, large = job[:6]
+    extra_kw = job[6] if len(job) > 6 else {}
     f = getattr(opt, {"bsl": "binary_search_lightness", "gd": "gradient_descent_oklch", "gac": "generate_accessible_color"}[fn], None)
     f = getattr(f, "__wrapped__", f)
     if f is None:
         return None
     ev = {"fn": fn, "in": list(text), "bg": list(bg), "cap4": 0, "out": [], "none": False, "outValid": False, "de4": -1,
-          "raised": "", "args": repr((tol, target, large))}
+          "raised": "", "args": repr((tol, target, large) + ((extra_kw,) if extra_kw else ()))}
     try:
         if fn == "gac":
             cap = max(tol) if tol else 0.0
             out = f(tuple(text), tuple(bg), large, target, min(target, 3.0 if large else 4.5), list(tol))
         else:
             cap = tol
-            out = f(tuple(text), tuple(bg), tol, target, large)
+            out = f(tuple(text), tuple(bg), tol, target, large, **extra_kw)
     except Exception as ex:
         ev["raised"] = type(ex).__name__
         return ev
@@ -36,6 +37,29 @@ def _call(job):
             ev["out"] = list(out)
             ev["de4"] = refs.de4(text, out)
     return ev
+
+
+def _call_child(jobs, flags):
+    """the direct calls again in a child interpreter started with the given flags (chunks in parallel)"""
+    import subprocess, json, concurrent.futures
+    if not jobs:
+        return []
+    env = dict(os.environ)
+    env["PYTHONPATH"] = os.path.join(vlib.REPO, "src") + os.pathsep + os.path.dirname(os.path.abspath(__file__))
+    code = ("import sys, json; sys.path.insert(0, %r); import c04; "
+            "jobs = json.loads(sys.stdin.read()); print(json.dumps([c04._call(tuple(j)) for j in jobs]))" % os.path.dirname(os.path.abspath(__file__)))
+    size = max(1, (len(jobs) + vlib.NCPU - 1) // vlib.NCPU)
+    chunks = [jobs[i:i + size] for i in range(0, len(jobs), size)]
+
+    def one(ch):
+        p = subprocess.run([sys.executable] + list(flags) + ["-c", code], input=json.dumps([list(j) for j in ch]), text=True, capture_output=True,
+                           env=env, timeout=1800)
+        if p.returncode != 0:
+            raise vlib.MachineryError("child interpreter for direct calls failed: " + p.stderr[-800:])
+        return json.loads(p.stdout.strip().splitlines()[-1])
+    with concurrent.futures.ThreadPoolExecutor(max_workers=len(chunks)) as ex:
+        res = list(ex.map(one, chunks))
+    return [dict(e, args=e["args"] + " [python " + " ".join(flags) + "]") for ch in res for e in ch if e is not None]
 
 
 def direct(rep, t, rnd):
@@ -74,7 +98,10 @@ def direct(rep, t, rnd):
     # gamut boundary): a few thousand cheap probing calls on saturated colours find the ones where it moves at all
     for k in range(2500 if t == "quick" else 40000):
         text, bg = pairs.saturated(rnd), pairs.rand_colour(rnd)
-        jobs.append(("gd", text, bg, round(rnd.uniform(1.0, 40.0), 3), rnd.choice([3.0, 4.5, 7.0, 10.0, 21.0]), bool(k & 1)))
+        jb = ("gd", text, bg, round(rnd.uniform(0.5, 40.0), 3), rnd.choice([3.0, 4.5, 7.0, 10.0, 21.0]), bool(k & 1))
+        if k % 3 == 0:
+            jb = jb + ({"max_iter": rnd.choice([0, 1, 1, 2, 3, 5, 200])},)       # the documented iteration budget of the descent
+        jobs.append(jb)
     evs0 = vlib.pool_map(_call, jobs, chunksize=16)
     evs = [e for i_, e in enumerate(evs0) if e is not None and (i_ < n or e.get("out") and e["out"] != e["in"] or i_ % 10 == 0)]
     # follow-up calls: wherever a routine moved the colour by d, it is asked again with a tolerance a little BELOW d
@@ -84,7 +111,7 @@ def direct(rep, t, rnd):
     for job, e in zip(jobs, evs0):
         if e is None or not e.get("out") or e["out"] == e["in"] or e["de4"] < 2000:
             continue
-        fn, text, bg, tol, target, large = job
+        fn, text, bg, tol, target, large = job[:6]
         for dlt in (0.003, 0.03, 0.12):
             nt = round(e["de4"] / 10000.0 - dlt, 4)
             if nt <= 0.05:
@@ -97,6 +124,13 @@ def direct(rep, t, rnd):
     if len(follow) > (900 if t == "quick" else 20000):
         follow = rnd.sample(follow, 900 if t == "quick" else 20000)
     evs += [e for e in vlib.pool_map(_call, follow, chunksize=4) if e is not None]
+    # the same routines in a child interpreter started with -O (assert statements are stripped there): every call that moved
+    # the colour, its follow-ups, and a sample of the rest
+    moved = [j for j, e in zip(jobs, evs0) if e is not None and e.get("out") and e["out"] != e["in"]]
+    ojobs = moved[: (400 if t == "quick" else 6000)] + follow[: (300 if t == "quick" else 5000)] + rnd.sample(jobs, min(len(jobs), 300 if t == "quick" else 4000))
+    oevs = _call_child(ojobs, ["-O"])
+    evs += oevs
+    rep.extra["direct_calls_in_dash_O_interpreter"] = len(oevs)
     rep.extra["direct_calls"] = len(evs)
     rep.extra["direct_follow_up_calls_tolerance_just_below_previous_move"] = len(follow)
     if not evs:
